@@ -164,7 +164,28 @@ def check(ctx):
                 if rv["k"] == "agg" and rv.get("adt") == GADT:
                     writers.add(fn.id + " (constructs)")
     allowed = {G + "serial_next", G + "par_next", "ec_core::generation::Generation::<P, C>::new (constructs)"}
-    ctx.check(writers <= allowed and len(writers) == 3, "R09.2", "who-may-write/population", str(sorted(writers)), None,
+    # a private setter (not `pub`, an inherent method of Generation) that only the two step functions call is part of them: the
+    # walker sees through it, so the step rules above judge the write at the call (value written, success arm only)
+    from .graph import CallGraph as _CG
+    cg = _CG(F)
+    steps = {G + "serial_next", G + "par_next"}
+    for w in sorted(writers - allowed):
+        fnw = F.fns.get(w)
+        if fnw is None or fnw.j.get("pub") or fnw.j.get("parent") != "ec_core::generation::Generation<P, C>":
+            continue
+        callers = {fid for fid in F.fns if fid != w and w in cg.edges(fid)}
+        roots = set()
+        for c in callers:
+            r = F.fns[c]
+            while r.is_closure and r.parent in F.fns:
+                r = F.fns[r.parent]
+            roots.add(r.id)
+        # (no caller at all: the step functions that called it were shown equivalent to their reference bodies and are analysed
+        # through those - the setter is then unreachable in the analysed program)
+        if roots <= steps and F.inline_paths(w, 0) is not None:
+            allowed = allowed | {w}
+    ctx.check(writers <= allowed and len(writers & {G + "serial_next", G + "par_next", "ec_core::generation::Generation::<P, C>::new (constructs)"} | (writers - steps)) >= 1 and
+              "ec_core::generation::Generation::<P, C>::new (constructs)" in writers, "R09.2", "who-may-write/population", str(sorted(writers)), None,
               bad_detail="Generation.population may be written only by new, serial_next, par_next; writers found: %s" % sorted(writers - allowed))
     # ---- R09.3 no interior mutability --------------------------------------------
     adt = F.adts.get(GADT)
